@@ -28,6 +28,7 @@ class Node:
     kind: str            # entry exit raise stmt test for with except T F join
     ast: Optional[ast.AST] = None
     of: Optional[int] = None   # for T/F: id of the test node
+    from_assert: bool = False  # test node (and its T/F) created for an `assert`
 
     def __repr__(self):
         if self.ast is not None and self.kind in ("stmt", "test", "for", "with"):
@@ -197,10 +198,13 @@ class CFG:
             return []
         if isinstance(st, ast.Assert):
             n = self._new("test", st.test)
+            self.nodes[n].from_assert = True
             self.of_ast[id(st)] = n
             self._link(preds, n)
             self._exc(n, ctx)
             t, f = self._branch(n)
+            self.nodes[t].from_assert = True
+            self.nodes[f].from_assert = True
             self._exc(f, ctx)
             return [t]
         if isinstance(st, (ast.FunctionDef, ast.AsyncFunctionDef, ast.ClassDef)):
@@ -324,6 +328,11 @@ class CFG:
     def guards(self, nid: int) -> List[Node]:
         """branch pseudo-nodes (T/F) that dominate nid, innermost first"""
         return [self.nodes[d] for d in self.dominators(nid) if self.nodes[d].kind in ("T", "F") and d != nid]
+
+    def cond_guards(self, nid: int) -> List[Node]:
+        """guards that come from if/while tests only (loop headers and asserts excluded)"""
+        import ast as _ast
+        return [g for g in self.guards(nid) if not isinstance(g.ast, (_ast.For, _ast.AsyncFor)) and not g.from_assert]
 
     def in_loop(self, nid: int) -> bool:
         return nid in self.reachable(nid)
